@@ -92,7 +92,7 @@ macro "us_tac" : tactic => `(tactic| (
     | (simp_all; done)
     | (simp_all
        repeat' split
-       all_goals (first | rfl | contradiction | (rename_i heq; cases heq; rfl) | (subst_vars; rfl) | (subst_vars; simp_all; done) | (simp_all; done))))))
+       all_goals (first | rfl | contradiction | (exfalso; exact Nat.lt_irrefl _ (Nat.lt_of_lt_of_le ‹_ < USIZE_MAX1› ‹USIZE_MAX1 ≤ _›)) | (rename_i heq; cases heq; rfl) | (subst_vars; rfl) | (subst_vars; simp_all; done) | (simp_all; done))))))
 
 theorem resolveRes_us (H : Nat → Bool) (st : Static) (d : Defs) (ctx : RCtx) (ref : Nat) (e : Expr) :
     resolveRes st (d.unfS H) ctx ref e = (resolveRes st d ctx ref e).map (usRes H) := by
